@@ -288,6 +288,11 @@ void traverse_for_images(token * t, DString * text, mmd_engine * e, long * offse
 				if (t->next && t->next->type == PAIR_PAREN) {
 					t = t->next;
 
+					if (t->len - 2 >= 1000) {
+						// Does not fit the caller's url[1000] buffer -- cannot be a stored asset
+						break;
+					}
+
 					memcpy(url, &text->str[t->start + *offset + 1], t->len - 2);
 					url[t->len - 2] = '\0';
 					clean = clean_string(url, false, true);
